@@ -120,7 +120,7 @@ Section Visit.
               if expr_eqb kb b' then
                 do newexpo <- s_div Sp e' ke;
                 match newexpo with
-                | ENum _ | EConst _ => s_pow Sp kv newexpo
+                | ENum (NInt _) => s_pow Sp kv newexpo      (* is_a<Integer>( *newexpo ): only an integer ratio *)
                 | _ => generic tt
                 end
               else generic tt
